@@ -81,6 +81,32 @@ def rule_merge_symmetry(ctx):
             if key not in got:
                 ctx.report(f"merge:missing:{key}", ctx.where(fn.file, fn.node), f"`merge_attrs` never merges `{key}`: the value of a later attribute is dropped (e.g. `#[into(i64)] #[into(owned)]` loses the plain field-type conversion)", {})
     ctx.floor("merge effects", len(eff), len(kinds) * len(flds))
+    # every merge of a sub-attribute inside a `merge_attrs` happens for *all* pairs of attributes: a shortcut that
+    # skips it for some combination (`skip` present ..) silently drops what the skipped side had accumulated
+    from . import reject as RJ
+    from .. import guardf as GF
+
+    n_sub = 0
+    for rel_, f_ in sorted(ctx.files.items()):
+        if not rel_.startswith("impl/src"):
+            continue
+        for g in A.functions(f_):
+            if g.name != "merge_attrs" or g.block is None or not (g.trait_ or "").endswith("ParseMultiple"):
+                continue
+            for c_, ps_ in A.find(g.block, "Expr::Call"):
+                nm_ = (A.path_str(c_["func"]) or "").split("::")[-1] if A.kind(c_["func"]) == "Expr::Path" else ""
+                if nm_ in ("merge_opt_attrs", "merge_attrs"):
+                    n_sub += 1
+                    fm = RJ.site_formula(g, c_, ps_)
+                    ctx.instance(f"merge:sub:{rel_}::{g.qual}:{A.render(c_['func'])}")
+                    atoms_, places_ = set(), {}
+                    GF._collect(fm, atoms_, places_)
+                    # a sum-typed attribute (`Either`, `ReprConversion`) merges like with like: a dispatch on the two
+                    # items' own variants is not a shortcut
+                    dispatch = not atoms_ and all(re.fullmatch(r"[$\w.]*\.item", p_) for p_ in places_)
+                    if fm != GF.T and not dispatch:
+                        ctx.report(f"merge:conditional:{rel_}::{g.qual}:{A.render(c_['func'])}", ctx.where(f_, c_), f"`{g.qual}` merges a sub-attribute through `{A.render(c_['func'])}` only under `{GF.canon_text(fm)[:160]}`: for the other combinations of repeated attributes one side's value is taken as is and what the other had accumulated is lost (e.g. `#[into(skip)] #[into(ref)] #[into(ref_mut)]` loses `ref`)", {})
+    ctx.floor("sub-attribute merges", n_sub, 5)
     # Types::merge_attrs concatenates in order
     tf = A.get_fn(ctx.files, "impl/src/utils.rs", "attr::types::<Types as ParseMultiple>::merge_attrs")
     t = A.fn_text(tf)
